@@ -2,6 +2,7 @@
   C12 — Immunized items are never evicted.
 -/
 import SV.Immunity.Proofs
+import SV.GenProofs
 namespace SV.Props.C12
 open SV SV.Immunity
 
@@ -39,5 +40,13 @@ theorem legacy_F10 : ∃ (cfg : ChunkCfg) (c : Chunk) (k p : Bytes),
     c.has k = true ∧ (c.addItem Variant.legacy cfg k p 1).2 = (false, true) ∧
     ((c.addItem Variant.legacy cfg k p 1).1.get k).map (·.payload) ≠ (c.get k).map (·.payload) :=
   legacy_overwrite_counterexample
+
+/-! ### tie by translation: the source's own leaf logic (regenerated into SV/Generated/Funcs.lean on every run) IS the model's -/
+theorem source_capacity_test_is_the_models (cfg : ChunkCfg) (c : Chunk) :
+    c.exceeded cfg = Gen.chunkExceeded c.items.length cfg.maxNumItems c.numBytes cfg.maxNumBytes := GenProofs.chunkExceeded_eq cfg c
+theorem source_chunk_config_is_the_models (c : Config) :
+    ((c.chunkCfg.maxNumItems : Nat) : Int) = Gen.chunkMaxNumItems c.numChunks c.maxNumItems ∧
+    ((c.chunkCfg.maxNumBytes : Nat) : Int) = Gen.chunkMaxNumBytes c.numChunks c.maxNumBytes ∧
+    ((c.chunkCfg.numToEvict : Nat) : Int) = Gen.chunkNumItemsToEvict c.numChunks c.numItemsToEvict := GenProofs.chunkCfg_eq c
 
 end SV.Props.C12
